@@ -7,6 +7,7 @@ import Ufw.Tie.VarintLoops.Decode
 import Ufw.Tie.VarintLoops.FromSource
 import Ufw.Tie.VarintLoops.Encode
 import Ufw.Tie.VarintLoops.EndToEnd
+import Ufw.Tie.VarintLoops.Wrappers
 #print axioms Ufw.Props.C14.canonical
 #print axioms Ufw.Props.C14.length_eq
 #print axioms Ufw.Props.C14.encode_buf_spec
@@ -51,3 +52,12 @@ import Ufw.Tie.VarintLoops.EndToEnd
 #print axioms Ufw.Tie.VarintLoops.encode_loop
 #print axioms Ufw.Tie.VarintLoops.gen_varint_encode
 #print axioms Ufw.Tie.VarintLoops.c_roundtrip_u64
+#print axioms Ufw.Tie.VarintLoops.mask32
+#print axioms Ufw.Tie.VarintLoops.five
+#print axioms Ufw.Tie.VarintLoops.ten
+#print axioms Ufw.Tie.VarintLoops.gen_varint_decode_u64
+#print axioms Ufw.Tie.VarintLoops.gen_varint_decode_s64
+#print axioms Ufw.Tie.VarintLoops.gen_varint_decode_u32
+#print axioms Ufw.Tie.VarintLoops.gen_varint_u32_length
+#print axioms Ufw.Tie.VarintLoops.gen_varint_s32_length
+#print axioms Ufw.Tie.VarintLoops.gen_varint_s64_length
